@@ -124,6 +124,7 @@ fn run_check(id: &str, tier: &str) -> i32 {
         "C16" => props::c16::run_c16(&rep),
         "C17" => props::c17::run_c17(&rep),
         "C18" => props::c18::run_c18(&rep),
+        "C25" => props::c25::run_c25(&rep),
         "C26" => props::c26::run_c26(&rep),
         "C28" => props::c28::run_c28(&rep),
         _ => {
